@@ -71,10 +71,26 @@ AssessClauses(p, ev) ==
       ELSE IF ev.status = "raised:MissingAddress" THEN F("missing", r.err # "missing")
       ELSE F("assess.run", r.err = "none")
 
+\* C08: tagging unchanged arguments UnknownChange instead of NoChange changes nothing, unless that taints a switch index
+TagVarClauses(p, post, cons, ev) ==
+  IF ev.alt3.status = "none" THEN {}
+  ELSE LET tagsU == [j \in 1..Len(ev.tags) |-> "U"] IN
+       IF Rs(p, post, tagsU, cons) # {} THEN {}
+       ELSE IF ev.alt3.status # "ok" THEN {"tagging.run"}
+       ELSE F("tagging", ~(SameT(Abs(ev.alt3.post), post) /\ Close(ev.alt3.w, ev.w)))
+
 TagClauses(ev) ==
   F("nochange", \E j \in 1..Len(ev.retdiff) : ev.retdiff[j].tag = "N" /\ ev.retdiff[j].aligned /\ ev.retdiff[j].primal # ev.retdiff[j].prev)
 
-Clauses(ev) ==
+\* C23: the same operation with the same key in another execution mode (eager vs jit; slice of a vmapped call vs
+\* the unbatched call) gives the same result
+ModeClauses(ev) ==
+  IF ev.altm.status = "none" THEN {}
+  ELSE IF ev.status # "ok" \/ ev.altm.status # "ok"
+       THEN F("mode.status", (ev.status = "ok") # (ev.altm.status = "ok"))
+       ELSE F("mode.same", ~(SameT(Abs(ev.altm.post), Abs(ev.post)) /\ Close(ev.altm.w, ev.w)))
+
+Clauses0(ev) ==
   LET p    == Entry(ev.pid).p
       pre  == Abs(ev.pre)
       post == Abs(ev.post)
@@ -100,6 +116,7 @@ Clauses(ev) ==
          \cup F("upd.kept", ~LawUpdKept(p, pre, post, ev.tags, cons))
          \cup F("upd.weight", ~LawUpdWeight(p, pre, post, ev.tags, cons, ev.w))
          \cup F("upd.discard", ev.hasdisc /\ ~LawUpdDiscard(p, pre, post, ev.tags, cons, Fn(ev.disc)))
+         \cup TagVarClauses(p, post, cons, ev)
     [] ev.op = "empty" ->
          TraceClauses(p, post, ev) \cup AltClauses(post, ev) \cup UndoClauses(pre, ev) \cup TagClauses(ev)
          \cup F("upd.args", ~LawUpdArgs(post, ev.reqargs))
@@ -111,6 +128,7 @@ Clauses(ev) ==
          \cup F("upd.args", ~LawUpdArgs(post, ev.reqargs))
          \cup F("regen.unselected", ~LawRegenUnselected(pre, post, ev.sel))
          \cup F("regen.weight", ~LawRegenWeight(pre, post, ev.w))
+         \cup TagVarClauses(p, post, EmptyF, ev)
          \cup F("regen.empty", ~LawRegenEmpty(pre, post, ev.sel, ev.w, post.args = pre.args /\ \A j \in 1..Len(ev.tags) : ev.tags[j] = "N"))
     [] ev.op = "index" ->
          LET ip   == <<IdxStr(ev.idx)>>
@@ -137,6 +155,8 @@ Clauses(ev) ==
          F("project.value", ~LawProject(p, pre, ev.sel, ev.w))
          \cup F("project.split", ~Close(ev.w + ev.w2, pre.score))
     [] OTHER -> {"unknown-op"}
+
+Clauses(ev) == Clauses0(ev) \cup ModeClauses(ev)
 
 VARIABLES l, fails
 TInit == l = 1 /\ fails = <<>>
